@@ -618,12 +618,17 @@ func (c *Client) SendAndRead(ctx context.Context, dest *net.UDPAddr, p *dhcpv4.D
 		c.logger.PrintMessage("sent message", p)
 		defer rem()
 
+		// One timer per try: it must not be re-armed by packets the
+		// matcher rejects, or a stream of such packets keeps the call
+		// waiting past the retry schedule.
+		timer := time.NewTimer(timeout)
+		defer timer.Stop()
 		for {
 			select {
 			case <-c.done:
 				return ErrNoResponse
 
-			case <-time.After(timeout):
+			case <-timer.C:
 				return errDeadlineExceeded
 
 			case <-ctx.Done():
